@@ -644,6 +644,9 @@ class propagator_cpmc(propagator_unrestricted):
 
         prop_data["weights"] *= jnp.exp(self.dt * (prop_data["pop_control_ene_shift"]))
         prop_data["weights"] = jnp.where(
+            jnp.isnan(prop_data["weights"]), 0.0, prop_data["weights"]
+        )
+        prop_data["weights"] = jnp.where(
             prop_data["weights"] > 100.0, 0.0, prop_data["weights"]
         )
         prop_data["pop_control_ene_shift"] = prop_data["e_estimate"] - 0.1 * jnp.array(
@@ -758,6 +761,9 @@ class propagator_cpmc_slow(propagator_cpmc, propagator_unrestricted):
         prop_data["overlaps"] = overlaps_new
 
         prop_data["weights"] *= jnp.exp(self.dt * (prop_data["pop_control_ene_shift"]))
+        prop_data["weights"] = jnp.where(
+            jnp.isnan(prop_data["weights"]), 0.0, prop_data["weights"]
+        )
         prop_data["weights"] = jnp.where(
             prop_data["weights"] > 100.0, 0.0, prop_data["weights"]
         )
@@ -1213,6 +1219,9 @@ class propagator_cpmc_nn(propagator_cpmc, propagator_unrestricted):
 
         prop_data["weights"] *= jnp.exp(self.dt * (prop_data["pop_control_ene_shift"]))
         prop_data["weights"] = jnp.where(
+            jnp.isnan(prop_data["weights"]), 0.0, prop_data["weights"]
+        )
+        prop_data["weights"] = jnp.where(
             prop_data["weights"] > 100.0, 0.0, prop_data["weights"]
         )
         prop_data["pop_control_ene_shift"] = prop_data["e_estimate"] - 0.1 * jnp.array(
@@ -1576,6 +1585,9 @@ class propagator_cpmc_nn_slow(propagator_unrestricted):
 
         prop_data["weights"] *= jnp.exp(self.dt * (prop_data["pop_control_ene_shift"]))
         prop_data["weights"] = jnp.where(
+            jnp.isnan(prop_data["weights"]), 0.0, prop_data["weights"]
+        )
+        prop_data["weights"] = jnp.where(
             prop_data["weights"] > 100.0, 0.0, prop_data["weights"]
         )
         prop_data["pop_control_ene_shift"] = prop_data["e_estimate"] - 0.1 * jnp.array(
@@ -1656,6 +1668,9 @@ class propagator_cpmc_continuous(propagator_unrestricted):
             / prop_data["overlaps"]
         )
         prop_data["weights"] *= imp_fun.real
+        prop_data["weights"] = jnp.where(
+            jnp.isnan(prop_data["weights"]), 0.0, prop_data["weights"]
+        )
         prop_data["weights"] = jnp.array(
             jnp.where(prop_data["weights"] < 1.0e-8, 0.0, prop_data["weights"])
         )
